@@ -359,6 +359,26 @@ def run(ctx):
                    not bad_sites and len(sites) >= 10,
                    "; ".join("%s:%d %s -> %s" % (s[0], s[1], s[2], s[4]) for s in bad_sites[:4]))
     ctx.extra["call_sites"] = ["%s:%d %s: %s" % (s[0], s[1], s[2], s[4]) for s in sites]
+    # which outcome of LuPartial.lu_c each determinant test rejects (LuNonsing.lu_c_rejects_iff_singular,
+    # lu_c_eq0_test): the full test rejects d = 0 and d = NaN, the bare `== 0.0` lets a NaN determinant
+    # (zero pivot before the last column) through
+    det_sites = [s for s in sites if s[2] in ("_vnacommon_mldivide", "_vnacommon_mrdivide", "_vnacommon_minverse")]
+    eq0_sites = [s for s in det_sites if lu_scale.test_kind(s[4]) == "eq0"]
+    ctx.extra["call_sites_full_test(== 0.0 || !isnormal)"] = len([s for s in det_sites if lu_scale.test_kind(s[4]) == "full"])
+    ctx.extra["call_sites_eq0_only(NaN accepted)"] = ["%s:%d" % (s[0], s[1]) for s in eq0_sites]
+    ctx.obligation("T:every determinant test at a call site rejects both outcomes of a zero pivot (0 and NaN) (%d of %d sites)"
+                   % (len(det_sites) - len(eq0_sites), len(det_sites)), not eq0_sites,
+                   "; ".join("%s:%d %s" % (s[0], s[1], s[4]) for s in eq0_sites[:5]))
+    for fn in sorted({s[0] for s in eq0_sites}):
+        lines_ = [s[1] for s in eq0_sites if s[0] == fn]
+        violation({"kind": "callsite-nan", "file": fn},
+                  "%s (lines %s): the determinant returned by %s is tested with `== 0.0` only; for a singular matrix whose first "
+                  "zero pivot is not in the last column _vnacommon_lu returns NaN (0 * inf in the L scaling), NaN == 0.0 is false and "
+                  "the non-finite inverse is used without an error" % (fn, ",".join(map(str, lines_)), eq0_sites[0][2]),
+                  {"file": fn, "lines": lines_, "test_found": "== 0.0",
+                   "expected": "determinant == 0.0 || !isnormal(cabs(determinant))",
+                   "witness": "_vnacommon_minverse([[0,1],[0,2]]) returns NaN+NaN i (harness/lu_harness.c: minverse 2 0 0 1 0 0 0 2 0); "
+                              "Coq: LuNonsingQI.eq0_test_accepts_singular_refuted"})
     for s in bad_sites:
         violation({"kind": "callsite", "file": s[0], "callee": s[2]},
                   "%s:%d: result of %s is not tested for singularity (found: %s)" % (s[0], s[1], s[2], s[4]),
@@ -370,9 +390,10 @@ def run(ctx):
 
     # ------------------------------------------------------------------ 2. proofs
     vfiles = ["Lin/LuGenA.v", "Lin/LuGenB.v", "Lin/LuGenC.v", "Lin/LuGenD.v", "Lin/LuGen.v", "Lin/LuPivot.v",
-              "Lin/LuDet3.v", "Lin/LuProofs.v", "Lin/LsProofs.v", "Properties_C19.v"]
+              "Lin/LuDet3.v", "Lin/LuProofs.v", "Lin/LuNonsing.v", "Lin/LuNonsingQI.v", "Lin/LsProofs.v",
+              "Lin/LsLuProofs.v", "Properties_C19.v"]
     vfiles = [v for v in vfiles if os.path.exists(os.path.join(vplib.COQDIR, v))]
-    ok, res = ctx.coq_obligations(["Lin/LsSpec.v", "Lin/LuQI2.v"] + vfiles)
+    ok, res = ctx.coq_obligations(["Lin/LsSpec.v", "Lin/LuPartial.v", "Lin/LsLu.v", "Lin/LuQI2.v"] + vfiles)
     if not ok:
         log = getattr(ctx, "_last_coq_log", "")
         broken.append(("Coq development of C19", log[-500:]))
@@ -705,6 +726,9 @@ def run(ctx):
     # ------------------------------------------------------------------ 3b. public conversion paths
     conv_check(ctx, exe, violation)
 
+    # ------------------------------------------------------------------ 3c. exactly zero pivots
+    zero_pivot_check(ctx, exe, run_both, violation, quick, model_variant)
+
     # ------------------------------------------------------------------ 4. least squares
     ls_check(ctx, drv, exe, run_both, violation, quick)
 
@@ -814,6 +838,275 @@ def conv_check(ctx, exe, violation):
                   {"function": "vnaconv_ztoyn", "z": [["1e-8", "1e8"], ["1", "1"]], "y": [list(v) for v in r["x"]],
                    "rowwise_backward_error": be, "expected_y11": "-1e-8 (to 8 digits)"})
 
+
+
+# ---------------------------------------------------------------------------- exact zero pivots
+def _unit_pow2(v):
+    """v = (re, im) Fractions: one part zero, the other +-2^e"""
+    a, b = v
+    if (a == 0) == (b == 0):
+        return False
+    x = abs(a if b == 0 else b)
+    return (x.numerator == 1 and x.denominator & (x.denominator - 1) == 0) or \
+           (x.denominator == 1 and x.numerator & (x.numerator - 1) == 0)
+
+
+def _nice(v, bits=12):
+    """dyadic with numerator and denominator below 2^bits: products of two such numbers and sums of
+    up to 8 products are exact in binary64"""
+    for x in v:
+        d = x.denominator
+        if d & (d - 1) or d > 2 ** bits or abs(x.numerator) > 2 ** bits:
+            return False
+    return True
+
+
+def gen_exact_lu(rng, n, j):
+    """A = P L U with unit lower triangular L (entries 0 or unit * 2^-k), upper triangular U whose
+    diagonal is +-2^e before column j and, for j < n, exactly 0 at (j, j): column j of A depends on
+    columns 0..j-1, which are independent.  j = n gives a nonsingular matrix (control)."""
+    units = [(Fraction(1), Fraction(0)), (Fraction(-1), Fraction(0)), (Fraction(0), Fraction(1)), (Fraction(0), Fraction(-1))]
+    Z = (Fraction(0), Fraction(0))
+    L = [[Z] * n for _ in range(n)]
+    U = [[Z] * n for _ in range(n)]
+    for i in range(n):
+        L[i][i] = (Fraction(1), Fraction(0))
+        for k in range(i):
+            if rng.random() < 0.75:
+                u = rng.choice(units)
+                e = Fraction(1, 2 ** rng.randint(0, 2))
+                L[i][k] = (u[0] * e, u[1] * e)
+        for c in range(i, n):
+            if c == i:
+                if i == j:
+                    U[i][i] = Z
+                elif i < j or j == n:
+                    u = rng.choice(units[:2] if rng.random() < 0.7 else units)
+                    e = Fraction(2) ** rng.randint(-2, 3)
+                    U[i][i] = (u[0] * e, u[1] * e)
+                else:
+                    U[i][i] = (Fraction(rng.randint(-3, 3)), Fraction(rng.randint(-1, 1)))
+            else:
+                U[i][c] = (Fraction(rng.randint(-3, 3)), Fraction(rng.randint(-2, 2)) if rng.random() < 0.5 else Fraction(0))
+    A = [[Z] * n for _ in range(n)]
+    for i in range(n):
+        for c in range(n):
+            acc = Z
+            for k in range(n):
+                acc = cadd(acc, cmul(L[i][k], U[k][c]))
+            A[i][c] = acc
+    perm = list(range(n))
+    rng.shuffle(perm)
+    return [A[p] for p in perm]
+
+
+def zero_pivot_check(ctx, exe, run_both, violation, quick, variant):
+    """LuPartial.lu_c against the C routines on matrices whose elimination is exact in binary64 and
+    whose first dependent column stands at every position j = 0..n-1 (plus nonsingular controls):
+      * stop column: zero pivot at j < n-1 -> the C determinant is NaN, the rows below j are NaN from
+        column j on, row_index and the columns before j equal the model's last finite state exactly;
+        zero pivot at j = n-1 -> everything finite, determinant exactly 0, whole array equal;
+      * mldivide / mrdivide / minverse: model None <-> the C solution is non-finite; determinant
+        rejected by `d == 0.0 || !isnormal(cabs(d))`; which outcomes the bare `d == 0.0` accepts;
+      * the same matrices as `a` matrix of vnacal_new_add_mapped_matrix (n x n T8): VNAERR_MATH;
+        through vnaconv_ztoyn: non-finite output."""
+    rng = ctx.rng
+    want = []
+    for n in range(1, 7 if quick else 9):
+        for j in range(n + 1):
+            reps = (2 if n <= 4 else 1) if quick else 6
+            for _ in range(reps):
+                want.append((n, j))
+    cands = []
+    # rejection sampling on the model: generate several candidates per wanted (n, j)
+    tries = 6
+    mlines = []
+    for (n, j) in want:
+        for _ in range(tries):
+            A = gen_exact_lu(rng, n, j)
+            cands.append((n, j, A))
+            mlines.append("luc %s %d %s" % (variant, n, mat_str(A, fs)))
+            mlines.append("lu %s %d %s" % (variant, n, mat_str(A, fs)))
+    ml, _ = run_both(mlines, ["lu 1 0x1p+0 0x0p+0"])
+    if ml is None:
+        return
+    chosen = []
+    for k, (n, j, A) in enumerate(cands):
+        if chosen and chosen[-1][0] == k // tries:
+            continue        # one accepted candidate per wanted (n, j) slot
+        mc = parse_luc_line(ml[2 * k])
+        mt = parse_m_line(ml[2 * k + 1])
+        stop = mc["stop"]
+        expect = None if j >= n - 1 else j
+        if stop != expect:
+            continue        # the leading columns happened to be dependent
+        if j < n and mc["det"] is not None and mc["det"] != (0, 0):
+            continue
+        if j == n and (mc["det"] is None or mc["det"] == (0, 0)):
+            continue
+        upto = min(j, n)
+        if first_tie_column(mt["cands"][:upto], zero_is_tie=False) < upto:
+            continue
+        arr = mc["a"]
+        if not all(_nice(v) for v in arr) or not all(_nice(v) for row in A for v in row):
+            continue
+        if not all(_unit_pow2(arr[c * n + c]) for c in range(upto)):
+            continue
+        chosen.append((k // tries, n, j, A, mc))
+    got = {(n, j) for (_, n, j, _, _) in chosen}
+    missing = sorted(set(want) - got)
+    ctx.extra["zero_pivot_positions_covered"] = sorted("n=%d j=%s" % (n, j if j < n else "none") for (n, j) in got)
+    if any(n <= 5 for (n, j) in missing):
+        raise vplib.BuildError("generator: no exact-elimination matrix accepted for %s" % missing[:5])
+    mlines, clines = [], []
+    for (_, n, j, A, mc) in chosen:
+        B = rand_matrix(rng, n, 1, 8, 1)
+        Brd = rand_matrix(rng, 1, n, 8, 1)
+        for op, args_m, args_c in (
+                ("mldivide", "%d 1 %s %s" % (n, mat_str(A, fs), mat_str(B, fs)), "%d 1 %s %s" % (n, mat_str(A, hx), mat_str(B, hx))),
+                ("mrdivide", "1 %d %s %s" % (n, mat_str(Brd, fs), mat_str(A, fs)), "1 %d %s %s" % (n, mat_str(Brd, hx), mat_str(A, hx))),
+                ("minverse", "%d %s" % (n, mat_str(A, fs)), "%d %s" % (n, mat_str(A, hx)))):
+            mlines.append("%s_c %s %s" % (op, variant, args_m))
+            clines.append("%s %s" % (op, args_c))
+        clines.append("lua %d %s" % (n, mat_str(A, hx)))
+        clines.append("ztoyn %d %s" % (n, mat_str(A, hx)))
+        ident = [[(Fraction(1 if r == c else 0), Fraction(0)) for c in range(n)] for r in range(n)]
+        clines.append("add_an %d %s %s" % (n, mat_str(A, hx), mat_str(ident, hx)))
+    ml, cl = run_both(mlines, clines)
+    if ml is None:
+        return
+    bad = []            # (case index, what)
+    stats = {"stop_before_last(NaN)": 0, "stop_in_last_column(det 0)": 0, "nonsingular_control": 0,
+             "solutions_all_nonfinite": 0, "eq0_test_would_accept_singular": 0}
+
+    def rejected_full(d):
+        # determinant == 0.0 || !isnormal(cabs(determinant))
+        if d == (0.0, 0.0):
+            return True
+        if not finite(d):
+            return True
+        m = math.hypot(d[0], d[1])
+        return not (math.isfinite(m) and m >= 2.2250738585072014e-308)
+
+    for q, (_, n, j, A, mc) in enumerate(chosen):
+        m3 = [parse_mc_line(ml[3 * q + t]) for t in range(3)]
+        c_ml, c_mr, c_mi, c_lua, c_zy = (parse_c_line(x) for x in cl[6 * q:6 * q + 5])
+        c_add = cl[6 * q + 5].strip()
+        ctx.count(("zero-pivot", n, j), 6)
+        singular = j < n
+        stop = mc["stop"]
+        arr_c = c_lua["x"]
+        arr_m = mc["a"]
+        # ---- the factorisation itself
+        if c_lua["piv"] != mc["piv"]:
+            bad.append((q, "row_index: C %s, model %s" % (c_lua["piv"], mc["piv"])))
+        upto = n if stop is None else stop
+        for r in range(n):
+            for c in range(upto):
+                v = arr_c[r * n + c]
+                if not (finite(v) and (Fraction(v[0]), Fraction(v[1])) == arr_m[r * n + c]):
+                    bad.append((q, "working array (%d,%d): C %r, model %s" % (r, c, v, arr_m[r * n + c])))
+        if stop is None:
+            if singular:
+                stats["stop_in_last_column(det 0)"] += 1
+                if c_lua["det"] != (0.0, 0.0):
+                    bad.append((q, "zero pivot in the last column: C determinant %r, model exactly 0" % (c_lua["det"],)))
+            else:
+                stats["nonsingular_control"] += 1
+                if not (finite(c_lua["det"]) and (Fraction(c_lua["det"][0]), Fraction(c_lua["det"][1])) == mc["det"]):
+                    bad.append((q, "nonsingular exact elimination: C determinant %r, model %s" % (c_lua["det"], mc["det"])))
+        else:
+            stats["stop_before_last(NaN)"] += 1
+            if finite(c_lua["det"]):
+                bad.append((q, "zero pivot in column %d of %d: C determinant %r is finite, model: NaN" % (stop, n, c_lua["det"])))
+            if arr_c[stop * n + stop] != (0.0, 0.0):
+                bad.append((q, "pivot (%d,%d): C %r, model exactly 0" % (stop, stop, arr_c[stop * n + stop])))
+            for r in range(stop + 1, n):
+                for c in range(stop, n):
+                    if finite(arr_c[r * n + c]):
+                        bad.append((q, "entry (%d,%d) below a zero pivot in column %d is finite in C: %r" % (r, c, stop, arr_c[r * n + c])))
+        # ---- the solvers
+        for name, mres, cres in (("mldivide", m3[0], c_ml), ("mrdivide", m3[1], c_mr), ("minverse", m3[2], c_mi)):
+            dc = cres["det"]
+            if (mres["det"] is None) != (not finite(dc)):
+                bad.append((q, "%s: C determinant %r, model %s" % (name, dc, "NaN" if mres["det"] is None else mres["det"])))
+            elif mres["det"] is not None and (Fraction(dc[0]), Fraction(dc[1])) != mres["det"]:
+                bad.append((q, "%s: C determinant %r, model %s" % (name, dc, mres["det"])))
+            if singular != rejected_full(dc):
+                bad.append((q, "%s: determinant %r %s by `== 0.0 || !isnormal(cabs())` on a %s matrix"
+                            % (name, dc, "rejected" if rejected_full(dc) else "accepted", "singular" if singular else "nonsingular")))
+            if singular and dc != (0.0, 0.0):
+                stats["eq0_test_would_accept_singular"] += 1
+            xs = cres["x"]
+            if mres["x"] is None:
+                nf = [not finite(v) for v in xs]
+                if all(nf):
+                    stats["solutions_all_nonfinite"] += 1
+                else:
+                    bad.append((q, "%s: model says non-finite solution, C returns finite numbers among %r" % (name, xs[:3])))
+            else:
+                if not all(finite(v) for v in xs) or [(Fraction(a), Fraction(b)) for (a, b) in xs] != mres["x"]:
+                    bad.append((q, "%s: exact elimination, C solution %r differs from the model's %s" % (name, xs[:3], mres["x"][:3])))
+        # ---- public paths
+        if singular:
+            if all(finite(v) for v in c_zy["x"]):
+                bad.append((q, "vnaconv_ztoyn of a singular matrix returns finite numbers"))
+            if c_add != "add_an rc=-1 callbacks=1 category=MATH":
+                bad.append((q, "vnacal_new_add_mapped_matrix with this singular 'a' matrix: %s" % c_add))
+        elif c_add != "add_an rc=0 callbacks=0 category=none":
+            bad.append((q, "vnacal_new_add_mapped_matrix with a nonsingular 'a' matrix: %s" % c_add))
+        if q % 11 == 0:
+            ctx.sample({"zero_pivot_case": "n=%d first dependent column %s" % (n, j if j < n else "none"),
+                        "model_stop": stop, "c_det": list(c_lua["det"]), "c_row_index": c_lua["piv"], "add_an": c_add})
+    ctx.traces_validated += len(mlines) + len(clines)
+    ctx.extra["zero_pivot_stats"] = stats
+    ctx.obligation("tie:LuPartial.lu_c vs _vnacommon_lu/mldivide/mrdivide/minverse on exact eliminations, first zero pivot at every "
+                   "column position (n=1..%d; %d NaN, %d det 0, %d nonsingular); callers report VNAERR_MATH"
+                   % (max(n for (_, n, _, _, _) in chosen), stats["stop_before_last(NaN)"], stats["stop_in_last_column(det 0)"],
+                      stats["nonsingular_control"]),
+                   not bad, "; ".join("case %d: %s" % b for b in bad[:3]))
+    for q, what in bad[:1]:
+        (_, n, j, A, mc) = chosen[q]
+        violation({"kind": "zero-pivot", "function": "_vnacommon_lu", "class": "column %s of %d" % (j if j < n else "none", n)},
+                  "exact elimination with the first zero pivot in column %s of a %dx%d matrix: %s" % (j if j < n else "none", n, n, what),
+                  {"n": n, "first_dependent_column": j if j < n else None,
+                   "A": [[[fs(a), fs(b)] for (a, b) in row] for row in A], "model": "LuPartial.lu_c (drv_lu2 luc)",
+                   "model_stop": mc["stop"], "observed": what, "harness": "harness/lu_harness.c lua / mldivide / add_an"})
+
+
+def parse_luc_line(line):
+    """luc stop=<j|none> det= <nan | re im> piv=<..> a= ..."""
+    p = line.split()
+    out = {"stop": None if p[1] == "stop=none" else int(p[1][5:])}
+    i = 3
+    if p[3] == "nan":
+        out["det"] = None
+        i = 4
+    else:
+        out["det"] = (Fraction(p[3]), Fraction(p[4]))
+        i = 5
+    out["piv"] = [int(k) for k in p[i][4:].split(",")] if p[i][4:] else []
+    vals = [Fraction(c) for c in p[i + 2:]]
+    out["a"] = [(vals[k], vals[k + 1]) for k in range(0, len(vals), 2)]
+    return out
+
+
+def parse_mc_line(line):
+    """<op>_c det= <nan | re im> sol=none | x= ..."""
+    p = line.split()
+    out = {}
+    if p[2] == "nan":
+        out["det"] = None
+        i = 3
+    else:
+        out["det"] = (Fraction(p[2]), Fraction(p[3]))
+        i = 4
+    if p[i] == "sol=none":
+        out["x"] = None
+    else:
+        vals = [Fraction(c) for c in p[i + 1:]]
+        out["x"] = [(vals[k], vals[k + 1]) for k in range(0, len(vals), 2)]
+    return out
 
 # ---------------------------------------------------------------------------- least squares
 def fgauss_inverse(N):
@@ -968,10 +1261,23 @@ def ls_check(ctx, drv, exe, run_both, violation, quick):
         mlines.append("ls %d %d %d %s %s" % (c["m"], c["n"], c["o"], mat_str(c["A"], fs), mat_str(c["B"], fs)))
         for op in ("qrsolve", "qr2"):
             clines.append("%s %d %d %d %s %s" % (op, c["m"], c["n"], c["o"], mat_str(c["A"], hx), mat_str(c["B"], hx)))
+    # second oracle (LsSpec.ls_solve, Gauss-Jordan + a posteriori check) on the smaller systems: the two
+    # executable specifications must agree exactly (LsLuProofs.ls_lu_agrees_with_ls_solve)
+    gj_idx = [i for i, c in enumerate(cases) if c["n"] <= 8 and c["m"] <= 40]
+    gj_lines = ["lsgj " + mlines[i][3:] for i in gj_idx]
     ctx.log("least squares: %d cases, largest %s" % (len(cases), max((c["m"], c["n"]) for c in cases)))
-    ml, cl = run_both(mlines, clines, timeout=1500)
-    if ml is None:
+    ml_all, cl = run_both(mlines + gj_lines, clines, timeout=1500)
+    if ml_all is None:
         return
+    ml, gl = ml_all[:len(mlines)], ml_all[len(mlines):]
+    gj_bad = [i for i, g in zip(gj_idx, gl) if g.split()[1:] != ml[i].split()[1:]]
+    ctx.obligation("tie:the two least-squares oracles agree exactly (LsLu.ls_lu on the LU model vs LsSpec.ls_solve, %d systems)"
+                   % len(gj_idx), not gj_bad, "cases %s" % gj_bad[:3])
+    for i in gj_bad[:1]:
+        violation({"kind": "ls-model", "function": "ls_lu/ls_solve"},
+                  "the two exact least-squares oracles disagree on a %dx%d system" % (cases[i]["m"], cases[i]["n"]),
+                  {"m": cases[i]["m"], "n": cases[i]["n"], "A": [[[fs(a), fs(b)] for (a, b) in row] for row in cases[i]["A"]],
+                   "B": [[[fs(a), fs(b)] for (a, b) in row] for row in cases[i]["B"]]})
     bad_fe, bad_ne, bad_rank, bad_cons, bad_q, bad_def = [], [], [], [], [], []
     hist = {}
     stats = dict(full_rank=0, consistent_exact=0, zero_col_rank_reported=0, dep_col_rank_reported=0, dep_col_huge=0)
@@ -1095,10 +1401,10 @@ def ls_check(ctx, drv, exe, run_both, violation, quick):
         return {"m": c["m"], "n": c["n"], "o": c["o"], "kind": c["kind"],
                 "A": [[[fs(a), fs(b)] for (a, b) in row] for row in c["A"]],
                 "B": [[[fs(a), fs(b)] for (a, b) in row] for row in c["B"]]}
-    ctx.obligation("tie:LsSpec consistent systems return the generating solution exactly (%d)" % stats["consistent_exact"],
+    ctx.obligation("tie:LsLu consistent systems return the generating solution exactly (%d)" % stats["consistent_exact"],
                    not bad_cons, str(bad_cons[:3]))
     for idx, _ in bad_cons[:1]:
-        violation({"kind": "ls-model", "function": "ls_solve"}, "LsSpec.ls_solve does not return the exact solution of a consistent system",
+        violation({"kind": "ls-model", "function": "ls_lu"}, "LsLu.ls_lu does not return the exact solution of a consistent system",
                   replay(idx))
     ctx.obligation("tie:qrsolve / qr+qrsolve2 vs exact normal-equation solution (tolerance %g eps (cond|x| + cond^2|r|/|A|); %d systems, %d with m >= 4n)"
                    % (LS_C, stats["full_rank"], stats.get("very_tall(m>=4n)", 0)), not (bad_fe or bad_rank),
